@@ -91,6 +91,30 @@ class Prog:
         self._bodies = {}
 
     # ------------------------------------------------------------------ naming
+    _PARAM_TABLE = None
+
+    def reviewed_param_names(self, fn):
+        """names of the parameters of `fn` on the reviewed tree, by position, or None (new function, changed arity, or a
+        closure whose parent has a different number of closures than on the reviewed tree)"""
+        if Prog._PARAM_TABLE is None:
+            import json as _json
+            tp = os.path.join(os.path.dirname(os.path.dirname(os.path.abspath(__file__))), 'tables', 'param_names.json')
+            try:
+                Prog._PARAM_TABLE = _json.load(open(tp))
+            except Exception:
+                Prog._PARAM_TABLE = {}
+        if os.environ.get('VERIF_NO_PARAM_TABLE'):
+            return None
+        tab = Prog._PARAM_TABLE.get(self.config) or {}
+        ent = tab.get(fn['key'])
+        if not ent or len(ent['names']) != fn['argc']:
+            return None
+        if fn['kind'] == 'Closure':
+            pkey = fn['key'].rsplit('::{closure#', 1)[0]
+            if ent.get('siblings') != len(self.children.get(pkey, [])):
+                return None
+        return ent['names']
+
     @staticmethod
     def key(path, crate):
         if path.startswith('<'):
@@ -276,6 +300,13 @@ class Body:
         for d in fn['dbg']:
             if not d['pl']['p']:
                 self.names.setdefault(d['pl']['l'], d['name'])
+        # parameters carry the names they had on the reviewed tree (rules/tables/param_names.json, by position), so that renaming a
+        # parameter does not change the origin strings the rule tables are written against
+        rev = prog.reviewed_param_names(fn) if hasattr(prog, 'reviewed_param_names') else None
+        if rev:
+            for i, nm in enumerate(rev):
+                if nm and (i + 1) in self.names:
+                    self.names[i + 1] = nm
         # captured variables of a closure: debug info places `(*_1).N` / `_1.N`
         self.upvars = {}
         if fn['kind'] == 'Closure':
@@ -285,6 +316,22 @@ class Body:
                     fs = [e for e in pl['p'] if e.startswith('.')]
                     if len(fs) == 1 and fs[0][1:].isdigit():
                         self.upvars.setdefault(fs[0], d['name'])
+            # a captured parameter of the enclosing function keeps its reviewed name too
+            try:
+                pkey = fn['key'].rsplit('::{closure#', 1)[0]
+                pfn = prog.fns.get(pkey)
+                prev = prog.reviewed_param_names(pfn) if pfn is not None and hasattr(prog, 'reviewed_param_names') else None
+                if prev:
+                    cur = {}
+                    for d in pfn['dbg']:
+                        if not d['pl']['p'] and 1 <= d['pl']['l'] <= pfn['argc']:
+                            cur.setdefault(d['name'], d['pl']['l'])
+                    for f_, nm in list(self.upvars.items()):
+                        l_ = cur.get(nm)
+                        if l_ and l_ - 1 < len(prev) and prev[l_ - 1]:
+                            self.upvars[f_] = prev[l_ - 1]
+            except Exception:
+                pass
         self.is_result = is_result_ty(fn['ret'])
         self._err = None
         self._dom = None
